@@ -290,10 +290,10 @@ inline void sparse_relabel(GraphSpec &g) {
     }
     for (auto &e : g.edges) { e[0] = lab[e[0]]; e[1] = lab[e[1]]; }
     g.n = N;
-    if (coin(30)) {   // one pendant path through all the filler vertices, hanging off a core vertex
+    if (coin(30)) {   // one pendant path through some of the filler vertices (at most 24), hanging off a core vertex
         double w = g.w.empty() ? 1.0 : g.w[0];
-        int prev = lab[0];
-        for (int c = 0; c < N; c++) if (!used.count(c)) { g.edges.push_back({prev, c}); g.w.push_back(w); prev = c; }
+        int prev = lab[0], cnt = 0, stride = pick(1, 5);
+        for (int c = pick(0, 40); c < N && cnt < 24; c += stride) if (!used.count(c)) { g.edges.push_back({prev, c}); g.w.push_back(w); prev = c; cnt++; }
     }
 }
 
